@@ -105,7 +105,7 @@ theorem Queue.submitLoop_IdsNodup (p : List Nat) (acc : SubAcc) (h : IdsNodup ac
         exact ⟨z, hz, hzx⟩
     · exact h
 
-theorem QPrim.idsNodup {c : Consts} {a b : Queue} (h : QPrim c a b) (hn : IdsNodup a) : IdsNodup b := by
+theorem QPrim.idsNodup {c : Consts} {P : Nat → AIn → Prop} {a b : Queue} (h : QPrim c P a b) (hn : IdsNodup a) : IdsNodup b := by
   cases h with
   | sync x r =>
     unfold Queue.sync
@@ -141,7 +141,7 @@ theorem QPrim.idsNodup {c : Consts} {a b : Queue} (h : QPrim c a b) (hn : IdsNod
           · exact hn
   | pause => exact hn
 
-theorem QTrans.idsNodup {c : Consts} {a b : Queue} (h : QTrans c a b) : IdsNodup a → IdsNodup b :=
+theorem QTrans.idsNodup {c : Consts} {P : Nat → AIn → Prop} {a b : Queue} (h : QTrans c P a b) : IdsNodup a → IdsNodup b :=
   QTrans.lift (fun a b => IdsNodup a → IdsNodup b) (fun _ h => h) (fun _ _ _ h1 h2 h => h2 (h1 h))
     (fun _ _ h => h.idsNodup) h
 
